@@ -160,6 +160,9 @@ pub fn gen_c01(tier: &str, seed: u64) -> Vec<Vec<String>> {
         c.push("END".into());
         cases.push(c);
     }
+    // the stream continued by later runs (append), with every timestamp format incl. the one whose
+    // text order is not the time order: what "oldest to newest" means must not depend on the names
+    cases.extend(gen_c06_across_month_end(tier, seed ^ 0xC01E).into_iter().take(n_cases(tier, 40, 600) as usize).map(|mut c| { c[0] = c[0].replacen("C06 ", "C01 ", 1); c }));
     cases
 }
 
@@ -377,9 +380,86 @@ fn gen_with(o: Opts, tier: &str, seed: u64, quick: u64, thorough: u64) -> Vec<Ve
 const ALL: &[&str] = &["num", "numd", "ts", "tsd"];
 
 pub fn gen_c08(tier: &str, seed: u64) -> Vec<Vec<String>> {
-    gen_with(Opts { prop: "C08", size: true, age: false, force_rot: true, restarts: 1, cleanup: false, faults: false, ext: false, modes: true, max_ops: 40, namings: ALL, foreign: false, exist: false, bg: 0 }, tier, seed, 500, 8000)
+    let mut v = gen_with(Opts { prop: "C08", size: true, age: false, force_rot: true, restarts: 1, cleanup: false, faults: false, ext: false, modes: true, max_ops: 40, namings: ALL, foreign: false, exist: false, bg: 0 }, tier, seed, 500, 8000);
+    // … and with a cleanup strategy whose steps can fail (the cleanup runs in the rotating thread):
+    // the size accounting of the file mounted by a rotation must not depend on how the cleanup ends
+    v.extend(gen_with(Opts { prop: "C08", size: true, age: false, force_rot: true, restarts: 0, cleanup: true, faults: true, ext: false, modes: false, max_ops: 40, namings: ALL, foreign: false, exist: false, bg: 0 }, tier, seed ^ 0xC08F, 150, 2000).into_iter().map(|mut c| { c[0] = c[0].replacen("C08 ", "C08 f", 1); c }));
+    v
 }
 pub fn gen_c09(tier: &str, seed: u64) -> Vec<Vec<String>> {
+    let mut v = gen_c09_virtual(tier, seed);
+    v.extend(gen_c09_realclock(tier, seed));
+    v
+}
+
+/// C09 with the real clock and the real file-system times (see `realclock.rs`): every case is its
+/// own harness process (a few seconds of sleeping each, all in parallel). Shapes: (a) a current
+/// file written to over two seconds is rotated out by the next run (no append) — named after its
+/// birth second; (b) age rotation + append + buffering: the file is born in second 0, its content
+/// arrives in second 1 (shutdown), the next run starts in second 1 and must rotate at its first
+/// write; (c) append restart, size rotation afterwards: the rotated file carries the birth second;
+/// (d) age rotation within one run under every naming.
+fn gen_c09_realclock(tier: &str, seed: u64) -> Vec<Vec<String>> {
+    let mut root = Rng::new(seed ^ 0xC09E);
+    let mut cases = Vec::new();
+    const T0: u64 = 20250310120000;
+    for k in 0..n_cases(tier, 8, 16) {
+        let mut r = root.fork();
+        let mut c = vec![format!("CASE flw C09 r{k}"), format!("NOTE realclock {T0}"), "SPEC 617070 _ s6c6f67 _ 0".to_string()];
+        let mut seq = 0u64;
+        let mut w = |c: &mut Vec<String>, r: &mut Rng, off: u64, len: Option<u64>| { let l = len.unwrap_or_else(|| r.range(4, 14)); c.push(format!("W {} {} -", hex(&record(seq, l)), T0 + off)); seq += 1; };
+        match k % 4 {
+            0 => {
+                let rot = Some("1000;_;ts;never".to_string());
+                c.push(format!("CFG {}", cfg_line(&rot, false, None, false, true)));
+                w(&mut c, &mut r, 0, None);
+                w(&mut c, &mut r, 1, None);
+                let mut t = 2;
+                if r.chance(1, 2) { w(&mut c, &mut r, 2, None); t = 3; }
+                c.push(format!("RESTART {}", cfg_line(&rot, false, None, false, true)));
+                w(&mut c, &mut r, t, None);
+            }
+            1 => {
+                let naming = *r.pick(&["ts", "ts", "num"]);
+                let rot = Some(format!("_;s;{naming};never"));
+                c.push(format!("CFG {}", cfg_line(&rot, true, Some(8192), false, true)));
+                w(&mut c, &mut r, 0, None);
+                c.push(format!("AT {}", T0 + 1));
+                c.push("SHUT".into());
+                c.push(format!("RESTART {}", cfg_line(&rot, true, Some(8192), false, true)));
+                w(&mut c, &mut r, 1, None);
+                c.push("SHUT".into());
+            }
+            2 => {
+                let rot = Some("30;_;ts;never".to_string());
+                c.push(format!("CFG {}", cfg_line(&rot, true, None, false, true)));
+                w(&mut c, &mut r, 0, Some(10));
+                w(&mut c, &mut r, 1, Some(10));
+                c.push(format!("RESTART {}", cfg_line(&rot, true, None, false, true)));
+                w(&mut c, &mut r, 2, Some(15));
+                w(&mut c, &mut r, 2, Some(10));
+                w(&mut c, &mut r, 3, Some(10));
+            }
+            _ => {
+                let naming = *r.pick(&["ts", "tsd", "num", "numd"]);
+                let rot = Some(format!("_;s;{naming};never"));
+                c.push(format!("CFG {}", cfg_line(&rot, false, None, false, true)));
+                w(&mut c, &mut r, 0, None);
+                w(&mut c, &mut r, 0, None);
+                w(&mut c, &mut r, 1, None);
+                w(&mut c, &mut r, 2, None);
+            }
+        }
+        c.push(format!("STAMPS {T0}"));
+        c.push("PARTS".into());
+        c.push("READ".into());
+        c.push("END".into());
+        cases.push(c);
+    }
+    cases
+}
+
+fn gen_c09_virtual(tier: &str, seed: u64) -> Vec<Vec<String>> {
     gen_with(Opts { prop: "C09", size: false, age: true, force_rot: false, restarts: 1, cleanup: false, faults: false, ext: false, modes: false, max_ops: 40, namings: ALL, foreign: false, exist: false, bg: 0 }, tier, seed, 500, 8000)
 }
 pub fn gen_c06(tier: &str, seed: u64) -> Vec<Vec<String>> {
@@ -648,7 +728,8 @@ pub fn gen_c04(tier: &str, seed: u64) -> Vec<Vec<String>> {
         let naming = *r.pick(&NAMINGS);
         let (spec, has_suffix) = gen_spec(&mut r, naming);
         c.push(spec);
-        c.push("VIA logger".into());
+        // the file writer as the logger's primary output, or as an additional writer (`{flw}`)
+        c.push(if r.chance(1, 4) { "VIA addwriter".to_string() } else { "VIA logger".to_string() });
         let n: u64 = *r.pick(&[5, 40, 300]);
         let rot = if r.chance(1, 3) { None } else { Some(format!("{n};_;{naming};never")) };
         let (mode, cap, is_async) = match r.below(6) {
